@@ -202,6 +202,10 @@ func (s *Stream) readBuf() []byte {
 	if s.filledBuffer {
 		s.bufSize *= 2
 		remainBuf := s.buf
+		for s.bufSize <= int64(len(remainBuf)) {
+			// replacing ill-formed bytes in place has grown the buffer beyond its nominal size
+			s.bufSize *= 2
+		}
 		s.buf = make([]byte, s.bufSize)
 		copy(s.buf, remainBuf)
 	}
